@@ -48,6 +48,11 @@ def run_aux(c, binary, sub, arg, name, env=None):
         # a death of the driver is data: whatever was written is validated, then an exit event is appended
         if "HARNESS" in p.stderr:
             raise ToolError("aux harness error:\n" + p.stderr[-2000:])
+        # (the driver's buffered writer may have been cut in the middle of a record: drop the torn line)
+        data = open(trace, "rb").read() if os.path.exists(trace) else b""
+        if data and not data.endswith(b"\n"):
+            data = data[:data.rfind(b"\n") + 1]
+            open(trace, "wb").write(data)
         with open(trace, "a") as f:
             f.write(json.dumps({"ev": "exit", "rc": p.returncode, "class": vlib.classify_death(p.returncode, p.stderr), "stderr": p.stderr[-300:]}) + "\n")
     cases = vlib.split_cases(trace)
@@ -221,6 +226,12 @@ def c14(tier, seed):
     for d in dedupe(rs["scenarios"]):
         rows.append((d["n"], d["prec"], (d["n"] + d["cap"]) % 2, "lin", "sink:%d" % d["cap"]))
     c.neg("MC_HexSink", "NEG_HexSink_lastwins")
+    # large arrays formatted on a thread with a 256 KiB stack: the formatter's frame must not grow with N (last rows: a crash ends the driver; the
+    # output is kept short by the precision; a stack overflow ends the process - an exit no action explains)
+    for n in (131072, 1048576):
+        for p_ in (0, 1, 64, 4097):
+            for up in (0, 1):
+                rows.append((n, p_, up, "lin", "smallstack"))
     scn = os.path.join(c.dir, "hex.scn")
     open(scn, "w").write("".join(("%d %d %d %s %s" % r_).rstrip() + "\n" for r_ in rows))
     c.cov["exhaustive"] = True
